@@ -351,7 +351,7 @@ func main() {
 		"evaluations":         len(outs),
 		"distinct_nontrivial": distinct,
 		"rule": "configurations and write histories from splitmix64(seed, index): variant x track set (0-1 video: H264 / H265 / VP9 / AV1 on the fMP4 variants, H264 on MPEG-TS plus rejected MPEG-TS configurations with the other three; 0-3 AAC/Opus audio, any order) x SegmentCount x SegmentMinDuration x PartMinDuration x SegmentMaxSize x RAM/disk; " +
-			"30-230 writes (long histories: 1500-3000) with jitter, equal DTS, mid-GOP and negative starts, multi-AU audio, parameter changes, cross-track skew; distinct by SHA-256 of the history; " +
+			"30-230 writes (long histories: 1500-3000) with jitter, equal DTS, mid-GOP and negative starts, multi-AU audio, parameter changes (H264/H265 on any unit, VP9/AV1 on key frames / sequence headers), H265 picture reordering (pts - dts of 0-4 frame ticks), cross-track skew; distinct by SHA-256 of the history; " +
 			"non-trivial = at least 2 segments published and at least 3 rotations",
 		"samples":         samples,
 		"distribution":    dist,
